@@ -92,6 +92,8 @@ MUTANTS['C09'] = [
 ]
 
 MUTANTS['C10'] = [
+  ('stop-caching-decision-per-copy', [(C, "        if not self._cache.do_cache:\n            return False\n", "        if not getattr(self, '_do_cache', True):\n            return False\n"), (C, "            self._cache.do_cache = False\n            return False", "            self._do_cache = False\n            return False")]),
+  ('memory-polled-again-after-the-threshold', [(C, "        if not self._cache.do_cache:\n            return False\n", "")]),
   ('cache-store-shared-by-all-caches', [(C, "class _CacheWrapper:\n    def __init__(self, immutable_warranty: str = 'pickle'):\n        self._serialize, self._deserialize = _get_serialize_and_deserialize(\n            immutable_warranty)\n        self.cache = {}\n", "class _CacheWrapper:\n    cache = {}\n\n    def __init__(self, immutable_warranty: str = 'pickle'):\n        self._serialize, self._deserialize = _get_serialize_and_deserialize(\n            immutable_warranty)\n")]),
   ('cache-keyed-by-raw-negative-index', [(C, "                item = item + len(self)\n                if item < 0:\n                    raise IndexError(_item)\n            try:\n                return self._cache[item]", "                if item + len(self) < 0:\n                    raise IndexError(_item)\n            try:\n                return self._cache[item]")]),
   ('copy-creates-new-cachewrapper', [(C, "        copy._cache = self._cache\n        copy._keep_mem_free = self._keep_mem_free", "        copy._cache = _CacheWrapper()\n        copy._keep_mem_free = self._keep_mem_free")]),
